@@ -204,6 +204,10 @@ pub struct Sim {
     pub panicked: Option<String>,
     /// human-readable log of world actions (debugging / replay files)
     pub log: Vec<String>,
+    /// `hq submit --wait` connections: (connection, job id, submit response already seen)
+    pub waits: Vec<(crate::world::WaitClient, Option<u32>)>,
+    /// generate submits with stream options and slow journal flushes (needs the journal sink)
+    pub wait_mode: bool,
     /// generator profile: 0 basic, 1 prefill-heavy, 2 multi-node, 3 resources/variants/strict policies,
     /// 4 worker time limits and time requests (incl. variants with different time requests)
     pub profile: u64,
@@ -358,6 +362,13 @@ impl Sim {
         Sim::new_cfg(seed, false)
     }
 
+    /// journal sink on + submits with `--wait` + slow journal flushes
+    pub fn new_wait(seed: u64) -> Sim {
+        let mut s = Sim::new_cfg(seed, true);
+        s.wait_mode = true;
+        s
+    }
+
     /// `journal`: the real `EventStreamer` is given a journal sink (see `World::journal`)
     pub fn new_cfg(seed: u64, journal: bool) -> Sim {
         let world = World::new(&WorldConfig { prefill_reserve: 1, prefill_max: 1, journal });
@@ -375,6 +386,8 @@ impl Sim {
             completed: Default::default(),
             known_jobs: vec![],
             open_jobs: vec![],
+            waits: vec![],
+            wait_mode: false,
             panicked: None,
             log: vec![format!("profile {profile}")],
         }
@@ -471,11 +484,90 @@ impl Sim {
         self.core.lines.push(format!("act {l}"));
     }
 
+    /// the journal flush becomes slow: flush requests stay unanswered until `release_flush`
+    pub fn do_hold_flush(&mut self) {
+        self.act_line("hold_flush".to_string());
+        self.log.push("hold_flush".to_string());
+        self.world.flush_gate.borrow_mut().hold = true;
+    }
+
+    pub fn do_release_flush(&mut self) {
+        if !self.world.flush_gate.borrow().hold {
+            return;
+        }
+        self.act_line("release_flush".to_string());
+        self.log.push("release_flush".to_string());
+        self.guarded(|s| s.world.release_flushes());
+        self.poll_waits();
+    }
+
+    fn poll_waits(&mut self) {
+        let mut ws = std::mem::take(&mut self.waits);
+        for (c, _) in ws.iter_mut() {
+            self.guarded(|s| s.world.wait_poll(c));
+        }
+        self.waits = ws;
+    }
+
+    /// end of a case: what every waiting client was told (C13: the completion report is never missed)
+    pub fn wait_reports(&mut self) {
+        self.do_release_flush();
+        self.poll_waits();
+        let ws = std::mem::take(&mut self.waits);
+        for (c, job) in &ws {
+            let Some(j) = job else { continue };
+            let got = c.received.iter().any(|m| matches!(m, ToClientMessage::Event(e) if matches!(e.payload, EventPayload::JobCompleted(id) if id.as_num() == *j)));
+            let answered = c.received.iter().any(|m| matches!(m, ToClientMessage::SubmitResponse(SubmitResponse::Ok { .. })));
+            let completed = self.completed.get(j).copied().unwrap_or(0) > 0;
+            self.job.lines.push(format!("op waitreport {j}"));
+            self.job.lines.push(format!("out wait {j} completed={} got={}", completed as u8, got as u8));
+            if !answered {
+                self.job.lines.push(format!("mon FAIL c13.wait submit-not-answered job {j}: the waiting client never received the submit response"));
+            }
+            if completed && !got {
+                self.job.lines.push(format!(
+                    "mon FAIL c13.wait completion-report-missed job {j} was reported completed but the client that submitted it with --wait never received the completion event (it received {} message(s))",
+                    c.received.len()
+                ));
+            }
+        }
+        self.waits = ws;
+    }
+
     fn client_op(&mut self, op_line: String, msg: FromClientMessage) -> Option<ToClientMessage> {
+        let waiting = matches!(msg, FromClientMessage::Submit(_, Some(_)));
+        if !waiting {
+            // the main connection awaits its own flush: a slow flush ends before it is used
+            self.do_release_flush();
+        }
         let json = serde_json::to_string(&msg).unwrap();
         self.act_line(format!("client {json} ## {op_line}"));
         self.job.lines.push(format!("op {op_line}"));
         self.log.push(format!("client {op_line}"));
+        if waiting {
+            let r = self.guarded(|s| s.world.wait_submit_begin(msg));
+            let Some(c) = r else {
+                let p = self.panicked.clone().unwrap_or_default();
+                self.job.lines.push(format!("mon FAIL c09.panic {} {}", panic_site(&p), p.replace('\n', " ")));
+                return None;
+            };
+            let evs = drain_events(&self.world.events);
+            let job = evs.iter().find_map(|e| if let EventPayload::Submit { job_id, .. } = e { Some(job_id.as_num()) } else { None });
+            let mut completed = std::mem::take(&mut self.completed);
+            self.job.events(&evs, &mut completed);
+            self.completed = completed;
+            self.mon.events(&evs);
+            let cbs = self.world.take_callbacks();
+            self.last_client_sent = self.world.sent.iter().map(|(w, m)| (*w, crate::world::clone_to_worker(m))).collect();
+            self.core_flush(vec![], &cbs);
+            if let Some(j) = job {
+                if !self.known_jobs.contains(&j) {
+                    self.known_jobs.push(j);
+                }
+            }
+            self.waits.push((c, job));
+            return Some(ToClientMessage::Finished);
+        }
         let resp = self.guarded(|s| s.world.client(msg));
         let Some(resp) = resp else {
             let p = self.panicked.clone().unwrap_or_default();
@@ -583,6 +675,7 @@ impl Sim {
             Some(ToClientMessage::ForgetJobResponse(r)) => {
                 self.job.lines.push(format!("out resp forget {} {}", r.forgotten, r.ignored));
             }
+            Some(ToClientMessage::Finished) => {} // waiting submit: the response arrives after the journal flush
             other => self.job.lines.push(format!("out resp !unexpected {other:?}").replace('\n', " ")),
         }
         if let Some((j, max_before, count, existing)) = auto {
@@ -728,13 +821,27 @@ impl Sim {
             max_fails.map(|m| m.to_string()).unwrap_or("-".into()),
             text
         );
+        // `hq submit --wait`: live job events of the submitted job are streamed on the same connection
+        let wait = self.wait_mode && !malformed && self.rng.chance(1, 2);
+        let stream = if wait {
+            use hyperqueue::server::event::streamer::{EventFilter, EventFilterFlags};
+            use hyperqueue::transfer::messages::{StreamEvents, StreamEventsMode};
+            Some(StreamEvents { mode: StreamEventsMode::LiveEvents, enable_worker_overviews: false, filter: EventFilter::new(None, EventFilterFlags::JOB_EVENTS) })
+        } else {
+            None
+        };
+        let op = if wait { op.replacen("submit", "submitw", 1) } else { op };
+        if wait && self.rng.chance(2, 3) {
+            self.do_release_flush();
+            self.do_hold_flush();
+        }
         let msg = FromClientMessage::Submit(
             SubmitRequest {
                 job_desc: JobDescription { name: "j".into(), max_fails },
                 submit_desc: JobSubmitDescription { task_desc: desc, submit_dir: "/tmp".into(), stream_path: None },
                 job_id: job_id.map(JobId::new),
             },
-            None,
+            stream,
         );
         self.client_action(op, msg);
     }
@@ -1072,6 +1179,8 @@ impl Sim {
                 }
                 "fail_next_launch" => self.do_fail_next_launch(parse_tid(toks[0])),
                 "rest_check" => self.do_rest_check(),
+                "hold_flush" => self.do_hold_flush(),
+                "release_flush" => self.do_release_flush(),
                 other => panic!("unknown act {other}"),
             }
         }
@@ -1144,6 +1253,28 @@ impl Sim {
     }
 
     pub fn step(&mut self) {
+        if self.world.flush_gate.borrow().hold {
+            // a journal flush is in progress (slow fsync): the cluster goes on meanwhile
+            match self.rng.below(8) {
+                0 => self.do_release_flush(),
+                1 | 2 => self.act_schedule(),
+                3 | 4 | 5 => {
+                    if !self.act_deliver() {
+                        self.act_schedule()
+                    }
+                }
+                _ => {
+                    let running = self.world.running_tasks();
+                    if running.is_empty() {
+                        self.act_deliver();
+                    } else {
+                        let (w, t) = *self.rng.pick(&running);
+                        self.do_end_task(w, t, EndKind::Finished);
+                    }
+                }
+            }
+            return;
+        }
         if self.rng.chance(1, 4) && self.act_focus() {
             return;
         }
@@ -1186,6 +1317,7 @@ impl Sim {
 
     /// fault-free suffix: deliver everything, end every running task successfully, schedule, until rest
     pub fn drain(&mut self, max_rounds: u32) -> bool {
+        self.do_release_flush();
         for _ in 0..max_rounds {
             if self.panicked.is_some() {
                 return false;
